@@ -1,6 +1,7 @@
 package rules
 
 import (
+	"go/constant"
 	"go/types"
 	"sort"
 	"strings"
@@ -229,12 +230,10 @@ func runC20(c *Ctx) {
 					if t := TermOf(ret.Results[0]); !(t.Op == "const" && t.Name == "nil") {
 						continue
 					}
-					fs := FactsFor(fn).At(ret.Block())
-					if HasFact(fs, FTrue(MCall("RolloutStrategy.IsEmptyRelease"))) || HasFact(fs, FFalse(MCall("RolloutStrategy.IsCanaryStragegy"))) {
-						continue
-					}
+					// the early return for strategies v1alpha1 cannot express lies behind one of these edges
+					// (possibly inside a predicate helper), so it is cut away with them
 					if r, _ := CanReach(Entry(fn), func(in ssa.Instruction) bool { return in == ssa.Instruction(ret) }, ReachOpts{CutInstr: isSet, CutEdge: func(b *ssa.BasicBlock, k int) bool {
-						return EdgeFactMatches(b, k, FTrue(MCall("RolloutStrategy.IsEmptyRelease"))) || EdgeFactMatches(b, k, FFalse(MCall("RolloutStrategy.IsCanaryStragegy")))
+						return EdgeFactMatches(b, k, FOr(FTrue(MCall("RolloutStrategy.IsEmptyRelease")), FFalse(MCall("RolloutStrategy.IsCanaryStragegy"))))
 					}}); r {
 						reach = true
 					}
@@ -256,12 +255,8 @@ func runC20(c *Ctx) {
 						if lk.Referrers() == nil {
 							continue
 						}
-						for _, r := range *lk.Referrers() {
-							ci, isCall := r.(ssa.CallInstruction)
-							if isCall && NameMatch(CalleeName(ci.Common()), "strings.EqualFold") {
-								continue
-							}
-							bad = "the annotation value is compared other than with strings.EqualFold at " + p.Pos(r.Pos()) + ": ConvertFrom writes it lower-case, users and older objects write Partition/Canary"
+						if at := caseSensitiveUse(lk, 0, map[ssa.Value]bool{}); at != nil {
+							bad = "the annotation value is compared other than with strings.EqualFold at " + p.Pos(at.Pos()) + ": ConvertFrom writes it lower-case, users and older objects write Partition/Canary"
 						}
 					}
 				}
@@ -459,4 +454,61 @@ func hasCounterpart(p *Program, v *types.Var, id string) bool {
 		}
 	}
 	return false
+}
+
+// caseSensitiveUse returns a use of the string v that is not case-insensitive: every use must be
+// strings.EqualFold, a case-folding call, an emptiness test, or the hand-over to a repository
+// function whose parameter is itself used that way (two levels). nil when there is none.
+func caseSensitiveUse(v ssa.Value, depth int, seen map[ssa.Value]bool) ssa.Instruction {
+	if seen[v] || v.Referrers() == nil {
+		return nil
+	}
+	seen[v] = true
+	for _, r := range *v.Referrers() {
+		switch x := r.(type) {
+		case *ssa.DebugRef:
+			continue
+		case *ssa.Phi:
+			if at := caseSensitiveUse(x, depth, seen); at != nil {
+				return at
+			}
+			continue
+		case *ssa.BinOp:
+			other := x.Y
+			if other == v {
+				other = x.X
+			}
+			if k, ok := other.(*ssa.Const); ok && k.Value != nil && k.Value.Kind() == constant.String && constant.StringVal(k.Value) == "" {
+				continue
+			}
+			return x
+		case ssa.CallInstruction:
+			cn := CalleeName(x.Common())
+			if NameMatch(cn, "strings.EqualFold") || NameMatch(cn, "strings.ToLower") || NameMatch(cn, "strings.ToUpper") {
+				continue
+			}
+			if bi, ok := x.Common().Value.(*ssa.Builtin); ok && bi.Name() == "len" {
+				continue
+			}
+			g := x.Common().StaticCallee()
+			if g != nil && g.Blocks != nil && g.Pkg != nil && strings.HasPrefix(g.Pkg.Pkg.Path(), ModPath) && depth < 2 {
+				bad := ssa.Instruction(nil)
+				for i, a := range x.Common().Args {
+					if a == v && i < len(g.Params) {
+						if at := caseSensitiveUse(g.Params[i], depth+1, seen); at != nil {
+							bad = at
+						}
+					}
+				}
+				if bad != nil {
+					return bad
+				}
+				continue
+			}
+			return r
+		default:
+			return r
+		}
+	}
+	return nil
 }
